@@ -18,7 +18,7 @@ KNOWN_FILE = os.path.join(ROOT, "known_findings.json")
 
 class Entry:
     def __init__(self, name, fmode="real", imode="int", params=None, cap=None, budget=None, ad=(),
-                 ub_checks=False, note="", concretize_fptoi=False, shard=None, summarize_loops=False, skip_ids=(), lockmon=None, expect_reach=True, kinds=None, setup=None):
+                 ub_checks=False, note="", concretize_fptoi=False, shard=None, summarize_loops=False, skip_ids=(), shard_forks=False, short=None, lockmon=None, expect_reach=True, kinds=None, setup=None):
         self.name = name
         self.fmode = fmode
         self.imode = imode
@@ -31,6 +31,8 @@ class Entry:
         self.shard = shard
         self.summarize_loops = summarize_loops
         self.skip_ids = tuple(skip_ids)
+        self.shard_forks = shard_forks
+        self.short = short
         self.note = note
         self.lockmon = lockmon
         self.expect_reach = expect_reach
@@ -38,7 +40,7 @@ class Entry:
         self.setup = setup      # callable(engine) for model overrides
 
     def label(self):
-        p = ",".join("%s=%s" % kv for kv in sorted(self.params.items()))
+        p = self.short if self.short is not None else ",".join("%s=%s" % kv for kv in sorted(self.params.items()))
         sh = "" if self.shard is None else ";shard %d/%d" % (self.shard[0] + 1, self.shard[1])
         return "%s[%s;%s/%s%s]" % (self.name, p, self.fmode, self.imode, sh)
 
@@ -174,6 +176,7 @@ class Runner:
         eng.concretize_fptoi = ent.concretize_fptoi
         eng.shard = ent.shard
         eng.summarize_loops = ent.summarize_loops
+        eng.shard_forks = ent.shard_forks
         if ent.lockmon:
             eng.lockmon = ent.lockmon()
         if ent.setup:
